@@ -31,21 +31,24 @@ def stored(app):
             'applied_migrations': sorted(a.applied_migrations or [])}
 
 
-def one(k, m, s):
+def one(k, m, s, app='vapp'):
     from django_evolution.compat.apps import get_apps
     from django_evolution.evolve import EvolveAppTask, Evolver
     from django_evolution.utils.apps import get_app_label
     from vlib.props import c10
     case = c10.Case(k, m, s, None)
+    case.app = app
     names = case.names()
-    res = {'params': [k, m, s], 'runs': []}
+    res = {'params': [k, m, s], 'app': app, 'runs': []}
 
     def run(vapp_fields, evolutions, migrations, skip=()):
         evorig._hygiene()
         sp = c10.spec(vapp_fields, None)
+        sp['apps'][0]['id'] = app
+        sp['apps'][0]['models'][0]['table'] = '%s_alpha' % app
         sp['apps'].append(evorig.MAPP_SPEC)
         evorig.install_models(sp)
-        evorig.set_evolutions('vapp', evolutions or [])
+        evorig.set_evolutions(app, evolutions or [])
         tr = evorig.Trace()
         out = {'ok': True, 'error': None}
         with tr.recording():
@@ -55,7 +58,7 @@ def one(k, m, s):
                     label = get_app_label(a)
                     if label in skip:
                         continue
-                    if label == 'vapp':
+                    if label == app:
                         ev.queue_task(EvolveAppTask(ev, a, migrations=migrations))
                     else:
                         ev.queue_evolve_app(a)
@@ -75,25 +78,32 @@ def one(k, m, s):
     final_fields = ['base'] + case.fnames + case.gnames
     r2 = run(final_fields, case.evolutions(), case.migrations())
     res['runs'].append(dict(r2, what='hand-over of vapp next to the first installation of mapp'))
-    res['vapp_rows'] = recorder('vapp')
+    res['vapp_rows'] = recorder(app)
     res['mapp_rows'] = recorder('mapp')
-    res['stored_vapp'] = stored('vapp')
+    res['stored_vapp'] = stored(app)
+    from django.db import connection
+    with connection.cursor() as cur:
+        cur.execute('SELECT DISTINCT app FROM django_migrations')
+        labels = sorted(r[0] for r in cur.fetchall())
+    res['stray_labels'] = [x for x in labels if x not in ('contenttypes', 'django_evolution', 'mapp', 'vapp', 'wapp', 'xapp', 'lapp')]
     res['expected_vapp_rows'] = names
     # release 2 again: nothing left to do
     r3 = run(final_fields, case.evolutions(), case.migrations())
     res['runs'].append(dict(r3, what='the same release once more'))
-    res['vapp_rows_after_second_run'] = recorder('vapp')
+    res['vapp_rows_after_second_run'] = recorder(app)
     return res
 
 
 def main(out_path):
-    evorig.setup(migration_app=True)
+    evorig.setup(migration_app=True, custom_label_app=True)
     out = []
-    for k, m, s in ((1, 3, 1), (1, 3, 2), (2, 4, 2), (0, 2, 1)):
+    # (`lapp`: an app whose label is not its package name - the label is what Django's migration table goes by)
+    for k, m, s, app in ((1, 3, 1, 'vapp'), (1, 3, 2, 'vapp'), (2, 4, 2, 'vapp'), (0, 2, 1, 'vapp'),
+                         (1, 3, 1, 'lapp'), (1, 3, 2, 'lapp'), (0, 2, 1, 'lapp')):
         try:
-            out.append(one(k, m, s))
+            out.append(one(k, m, s, app))
         except Exception as e:       # a case the rig cannot set up is reported, not hidden
-            out.append({'params': [k, m, s], 'rig_error': '%s: %s' % (type(e).__name__, str(e)[:300])})
+            out.append({'params': [k, m, s], 'app': app, 'rig_error': '%s: %s' % (type(e).__name__, str(e)[:300])})
     json.dump(out, open(out_path, 'w'), default=str)
 
 
